@@ -21,10 +21,11 @@ import (
 	"verif.local/harness/ev"
 )
 
-const rule = "seeded histories of 100-600 operations (get/set/delete/batch of 1-12 mixed sets and deletes with repeated keys/" +
-	"find over [start,end) incl. empty, equal and inverted bounds/flush/close+reopen) over a clustered key universe " +
-	"(prefixes of each other, '|' ':' '%' space '~', multi-byte UTF-8, raw high bytes, lengths 1 and max-1/max/max+1) and values " +
+const rule = "seeded histories of 100-600 operations (get/set/delete/batch of 1-52 mixed sets and deletes with repeated keys/" +
+	"find over [start,end) incl. empty, equal and inverted bounds, stopped early/flush/close+reopen/wipe/read transaction) over a clustered key universe " +
+	"(prefixes of each other, '|' ':' '%' space '~', multi-byte UTF-8, raw high bytes, lengths 1, max-1/max/max+1 and 70000) and values " +
 	"(empty, short, max-1/max/max+1 bytes) on 16 implementations, every result compared with a map + sorted-slice model; " +
+	"plus per implementation histories pre-loaded with 2000-5000 index-style keys through batches (overwritten and deleted in runs of neighbours, scans stopped after 0-3000 pairs); " +
 	"distinct = (implementation, hash of the executed operation sequence); non-trivial = the history contains >=1 batch that repeats a key, " +
 	">=1 delete of a present key, >=3 range scans, and >=1 over-limit mutation"
 
@@ -37,13 +38,16 @@ func run(r *ev.Run) {
 	r.Assume("the KeyValue interface says nothing about empty keys and NUL bytes; keys are non-empty and keys/values NUL-free")
 	r.Assume("a batch is built and committed without interleaved calls from the same goroutine; iterators are closed before the next call (sqlite holds a gate for both)")
 	r.Assume("batch unity under concurrency is judged only for leveldb, sqlite and kv (documented transactional batches); memory and buffer are reported, not judged")
-	r.Assume("failed-commit atomicity is forced by committing after Close on leveldb and kv only (clean error); sqlite is skipped (use after Close of database/sql is not a clean failure), buffer with an injected backing error is reported, not judged")
+	r.Assume("failed-commit atomicity is forced by committing after Close on leveldb and kv (clean error); on sqlite by a statement of the batch that the database refuses (a harness-installed trigger raises ABORT for one poisoned key, first / inside / last in the batch) and by Close between BeginBatch and CommitBatch; buffer with an injected backing error is reported, not judged; kv file has no control point for a failure in the middle of a batch (modernc kv accepts a delete of any key length; its writes reach the file only at commit)")
+	r.Assume("the optional interfaces are judged by their documentation in pkg/sorted/kv.go: after Wiper.Wipe the store is the empty map and goes on as a map; reads through a ReadTransaction equal the map as it was at BeginReadTx (later writes are interleaved only on leveldb: the sqlite transaction holds the store's gate until closed)")
 
 	root := ev.Scratch("c10")
 	defer os.RemoveAll(root)
 
 	specs := allSpecs()
+	tStart := time.Now()
 	nHist := r.Pick(12, 320)
+	nBulk, bulkN := r.Pick(1, 3), r.Pick(2000, 5000)
 
 	// Flush of an empty buffer is probed first (a backing store whose BeginBatch takes a
 	// resource must not be left holding it): a wedged store is reported once there, and the
@@ -73,11 +77,29 @@ func run(r *ev.Run) {
 					continue
 				}
 				ok := ev.WithTimeout(time.Duration(r.Pick(240, 900))*time.Second, func() {
-					runHistory(r, root, id, sp, h)
+					runHistory(r, root, id, sp, h, 0)
 				})
 				if !ok {
 					r.Inconclusive(fmt.Sprintf("history %s did not finish (watchdog); remaining histories of %s skipped", id, sp.name))
 					return
+				}
+			}
+			// histories over thousands of live keys (scans cross pages / blocks / long merge runs)
+			for h := 0; h < nBulk; h++ {
+				id := fmt.Sprintf("%s#bulk%d;", sp.name, h)
+				if !r.Only(id) {
+					continue
+				}
+				t0 := time.Now()
+				ok := ev.WithTimeout(time.Duration(r.Pick(240, 900))*time.Second, func() {
+					runHistory(r, root, id, sp, 1000+h, bulkN)
+				})
+				if os.Getenv("C10_DEBUG") != "" {
+					fmt.Fprintf(os.Stderr, "TIMING %s %v (since start %v)\n", id, time.Since(t0), time.Since(tStart))
+				}
+				if !ok {
+					r.Inconclusive(fmt.Sprintf("history %s did not finish (watchdog)", id))
+					break
 				}
 			}
 			if id := "torn/" + sp.name + ";"; r.Only(id) {
@@ -95,6 +117,9 @@ func run(r *ev.Run) {
 		}()
 	}
 	wg.Wait()
+	if debugTiming {
+		dumpTimings()
+	}
 
 	if os.Getenv("VERIF_ONLY") != "" {
 		return // a replay runs one case; coverage requirements are for full runs
@@ -125,5 +150,22 @@ func run(r *ev.Run) {
 	r.Require("batch_features", "repeated-key", "set-then-delete", "delete-then-set", "mixed", "oversize-inside")
 	r.Require("torn_subcheck_ran", names...)
 	r.Require("torn_reads_overlapping_a_commit", judged...)
-	r.Require("failed_batch_forced", "leveldb", "kv")
+	r.Require("failed_batch_forced", "leveldb", "kv", "sqlite")
+	for _, v := range []string{"insert-fails", "delete-fails"} {
+		for _, w := range []string{"first", "inside", "last"} {
+			r.Require("failed_batch_midway", "sqlite/"+v+"/"+w)
+		}
+	}
+	var plain []string
+	for _, sp := range specs {
+		if !sp.buffered {
+			plain = append(plain, sp.name)
+		}
+	}
+	r.Require("op_wipe", plain...)
+	r.Require("wipe_kinds", "non-empty", ">=1000-keys")
+	r.Require("op_readtx", "leveldb", "sqlite")
+	r.Require("readtx_kinds", "reads", "reads-after-later-writes")
+	r.Require("giant_key_ops", "get", "set", "delete", "batch-set", "batch-delete", "find-start", "find-end")
+	r.Require("bulk_history_ran", names...)
 }
